@@ -136,6 +136,10 @@ func genericFor(id string, p *Prog, r *Report) {
 	case "C14":
 		recordLinkRule(p, r, "R14.8", modset("vault", "locker", "lend"), 20)
 	}
+	if ps, ok := pairTable[id]; ok {
+		rules := map[string]string{"C08": "R08.9", "C01": "R01.11", "C11": "R11.9", "C07": "R07.8"}
+		pairedWritersRule(p, r, rules[id], ps, len(ps))
+	}
 	if rr, ok := replScopes[id]; ok {
 		replacedFieldRule(p, r, rr.rule, rr.mods, rr.floor)
 	}
